@@ -344,6 +344,39 @@ theorem roundHalfEven_close (x : Rat) : |x - (roundHalfEven x : Rat)| ≤ 1 / 2 
   simp only
   split_ifs with ha hb hc <;> rw [abs_le] <;> constructor <;> push_cast <;> linarith
 
+/-! ### sub-pixel probe shifts of the overlap projection -/
+
+/-- fractional part `x − round(x)` as numpy computes it -/
+def frac (x : Rat) : Rat := x - (roundHalfEven x : Rat)
+
+/-- the shift applied by one overlap projection is the difference of the fractional parts (generated `probeShift`) -/
+theorem subpixelShift_eq (pos old : Rat) : subpixelShift pos old = frac pos - frac old := by
+  simp [subpixelShift, probeShift, frac]
+
+/-- **Shifts compose**: moving old → mid → new shifts the probe by as much as moving old → new directly, so after any
+sequence of scan positions the probe sits at the fractional part of the current position (relative to where it started).
+A shift computed as `frac(pos − old)` would violate this as soon as two fractional parts differ by more than 1/2. -/
+theorem subpixelShift_compose (p₀ p₁ p₂ : Rat) : subpixelShift p₂ p₁ + subpixelShift p₁ p₀ = subpixelShift p₂ p₀ := by
+  simp only [subpixelShift_eq]; ring
+
+/-- no move, no shift; and starting from a whole-pixel position the shift is the fractional part of the new position -/
+theorem subpixelShift_self_and_from_pixel (p : Rat) (n : Int) :
+    subpixelShift p p = 0 ∧ subpixelShift p (n : Rat) = frac p := by
+  simp [subpixelShift_eq, frac, roundHalfEven_intCast]
+
+/-- each single shift stays within one pixel -/
+theorem subpixelShift_bounded (pos old : Rat) : |subpixelShift pos old| ≤ 1 := by
+  have h1 := roundHalfEven_close pos
+  have h2 := roundHalfEven_close old
+  rw [subpixelShift_eq, frac, frac, abs_le] at *
+  constructor <;> linarith [h1.1, h1.2, h2.1, h2.2]
+
+/-- the variant `frac(pos − old)` is a different function: 2.75 ← 2.25 gives +1/2 instead of −1/2 (a whole pixel apart) -/
+theorem frac_of_difference_counterexample : ¬ (∀ pos old : Rat, frac (pos - old) = subpixelShift pos old) := by
+  intro h
+  have := h (11 / 4) (9 / 4)
+  revert this; decide +kernel
+
 /-! ### scan positions -/
 
 /-- the single affine map applied to every explicit position -/
